@@ -51,9 +51,18 @@ pub fn search(d: &mut dyn Driver, pos: Option<(&Option<String>, &[String])>, go:
         d.send(&Gui::Position { fen: fen.clone(), moves: moves.to_vec() })?;
     }
     d.send(&Gui::Go(go.clone()))?;
-    match d.until_bestmove(WATCHDOG) {
+    match d.await_bestmove(WATCHDOG) {
         Ok(outs) => Ok(collect(outs)),
-        Err((WaitErr::Timeout, _)) => Err("watchdog".into()),
+        Err((WaitErr::Timeout, _)) => {
+            // The answer did not arrive in time although the search thread is alive (loaded machine,
+            // exploding quiescence): inconclusive. Get back in step before the session is used again —
+            // otherwise every later answer would be attributed to the wrong search.
+            let _ = d.send(&Gui::Stop);
+            match d.await_bestmove(Duration::from_secs(900)) {
+                Ok(_) => Err("watchdog".into()),
+                Err(_) => Err("watchdog-lost: the engine never answered; the session must not be used any more".into()),
+            }
+        }
         Err((WaitErr::Disconnected, _)) => Err("engine output channel closed (search thread died)".into()),
     }
 }
